@@ -253,13 +253,24 @@ theorem idNat_dropRows {r : RowData} (h : (idNat r).isSome) :
   simp only [idNat, e, hi]
 
 theorem saveLoad_sigs {s : St} (hg : Good s) : sigs (saveLoad s) = sigs s := by
-  unfold sigs saveLoad freezeRows
-  simp only [List.map_map]
-  apply List.map_congr_left
-  intro r hr
-  have h1 : (idNat { r with values := r.values.map (fun p => (p.1, freezeVal s p.2)) }).isSome := by
-    rw [idNat_freeze]; exact hg.2.2.1 r hr
-  exact congrArg (Prod.mk r.table) ((idNat_dropRows h1).trans (idNat_freeze s r))
+  have hf : sigs (resetSlots s) = sigs s := freezeRows_sigs s
+  unfold sigs at hf ⊢
+  simp only [resetSlots] at hf
+  rw [← hf]
+  simp only [saveLoad]
+  apply List.ext_getElem
+  · simp
+  · intro i h1 h2
+    simp only [List.getElem_map, List.getElem_mapIdx]
+    split
+    · have hi : i < (freezeRows s).length := by simpa using h2
+      have hr' : (freezeRows s)[i] ∈ freezeRows s := List.getElem_mem hi
+      obtain ⟨r0, hr0, hr0e⟩ := List.mem_map.1 hr'
+      rw [← hr0e]
+      have h1 : (idNat { r0 with values := r0.values.map (fun p => (p.1, freezeVal s p.2)) }).isSome := by
+        rw [idNat_freeze]; exact hg.2.2.1 r0 hr0
+      exact congrArg (Prod.mk r0.table) (idNat_dropRows h1)
+    · rfl
 
 theorem saveLoad_good {s : St} (hg : Good s) (hz : NoAlloc s) :
     Good (saveLoad s) ∧ NoAlloc (saveLoad s) ∧ Rel s (saveLoad s) :=
